@@ -16,7 +16,9 @@ CONSTANTS NMax,       \* rank-1 sizes 1..NMax
           Rate,       \* keep 1 of Rate of the non-canonical cases
           AllPos,     \* TRUE: the single extreme element visits every position (else the vector-width boundary set)
           DetMax,     \* determinant sizes 1..DetMax
-          Draws       \* data draws per determinant header
+          Draws,      \* data draws per determinant header
+          PosPer,     \* boundary positions of the single extreme element per (fn, T, shape) when ~AllPos
+          Extra, PredExtra, IseqExtra      \* numbers of hashed extra headers of the fold / pred / iseq families
 VARIABLE c
 Seed == atoi(IOEnv.VERIF_SEED)
 
@@ -36,7 +38,7 @@ FnSeq == <<"sum", "product", "min", "max", "norm", "inner", "inner1", "trace", "
            "isequal", "issymmetric", "isorthogonal", "determinant", "det", "det_b">>
 SignSeq == <<"pos", "neg", "mixed", "xmin", "xmax", "psq", "alltrue", "allfalse", "onetrue", "onefalse",
              "equal", "diff", "sym", "asym", "nonsq", "identity", "sperm", "near", "scaled", "gen", "dom", "swaplast">>
-ArgSeq == <<"tensor", "expr", "view", "fview", "tt", "te", "et", "ee", "cmp_s", "cmp_es", "cmp_tt", "bool">>
+ArgSeq == <<"tensor", "expr", "view", "fview", "member", "tt", "te", "et", "ee", "cmp_s", "cmp_es", "cmp_tt", "bool">>
 OpSeq == <<"gt", "lt", "ge", "le", "eq", "ne">>
 TI(t) == IF t = "b" THEN 5 ELSE Idx(TypeSeq, t)
 
@@ -62,29 +64,39 @@ ExprOps(arg) == arg \in {"expr", "cmp_es"}
 -----------------------------------------------------------------------------------------
 (* family fold:  sum product min max norm  on  tensor | a+b | view *)
 FoldFns == {"sum", "product", "min", "max", "norm"}
-FoldArgs == <<"tensor", "expr", "view", "fview">>
+FoldArgs == <<"tensor", "expr", "view", "fview", "member">>      \* member: the Tensor methods A.sum() / A.product() (TensorMethods.h)
+MemberOK(f, a) == IF a = "member" /\ f \notin {"sum", "product"} THEN "tensor" ELSE a
 FoldSigns == <<"pos", "neg", "mixed", "xmin", "xmax">>
-FoldPos(g, n) == IF g \in {"xmin", "xmax"} THEN (IF AllPos THEN 1..n ELSE PosSet(n)) ELSE {0}
+FoldFnSeq == <<"sum", "product", "min", "max", "norm">>
+ShapeSeq == [i \in 1..NMax |-> <<i>>] \o <<<<3, 4>>, <<5, 7>>, <<2, 3, 5>>, <<4, 4, 4>>>>
+FoldH(f, t, a, s, g, p) == [fn |-> f, T |-> t, arg |-> a, shape |-> s, sign |-> g, pos |-> p]
+\* the headers are CONSTRUCTED stratum by stratum (enumerating the full product and filtering by hash is too slow):
 FoldHeaders(u) ==
-    UNION { UNION { { [fn |-> f, T |-> t, arg |-> a, shape |-> s, sign |-> g, pos |-> p] :
-                        f \in FoldFns, t \in Types, a \in {"tensor", "expr", "view", "fview"}, p \in FoldPos(g, NEl(s)) }
-                    : g \in {"pos", "neg", "mixed", "xmin", "xmax", "psq"} } : s \in Shapes1 \cup ShapesK }
+    \* (a) identity-element strata: min / max of all-positive and all-negative tensors, every (T, shape)
+    { FoldH(f, t, "tensor", s, g, 0) : f \in {"min", "max"}, t \in Types, s \in Shapes1 \cup ShapesK, g \in {"pos", "neg"} }
+    \* (b) rotation: every (fn, T, shape) with a sign pattern, an argument kind and (for a single extreme) a boundary position
+    \cup { LET n == NEl(s)   fi == Idx(FnSeq, f)
+               g == Pick(FoldSigns, n + TI(t) + fi)
+               a == MemberOK(f, Pick(FoldArgs, n + fi))
+               p == IF g \in {"xmin", "xmax"} THEN Pick(PosSeq(n), HKey0(f, t, a, s, g)) ELSE 0
+           IN FoldH(f, t, a, s, g, p) : f \in FoldFns, t \in Types, s \in Shapes1 \cup ShapesK }
+    \* (c) the single extreme element of min / max: every position (thorough) or PosPer boundary positions (quick)
+    \cup UNION { { FoldH(f, t, "tensor", s, IF f = "min" THEN "xmin" ELSE "xmax", p) :
+                      p \in IF AllPos THEN 1..NEl(s) ELSE {Pick(PosSeq(NEl(s)), HKey0(f, t, "tensor", s, "xmin") + j) : j \in 1..PosPer} }
+                 : f \in {"min", "max"}, t \in (IF AllPos THEN Types ELSE {"f64", "i32"}), s \in Shapes1 \cup ShapesK }
+    \* (d) norms that are exact integers
+    \cup { FoldH("norm", "f64", a, s, "psq", 0) : a \in {"tensor", "expr"}, s \in Shapes1 \cup ShapesK }
+    \* (e) Extra hashed headers over the whole product
+    \cup { LET k == Mix((Seed % P) + 1000, j)
+               f == Pick(FoldFnSeq, k)   t == Pick(TypeSeq, Mix(k, 1))   a == MemberOK(f, Pick(FoldArgs, Mix(k, 2)))
+               s == Pick(ShapeSeq, Mix(k, 3))   g == Pick(FoldSigns, Mix(k, 4))   n == NEl(s)
+               p == IF g \in {"xmin", "xmax"} THEN (IF AllPos THEN 1 + (Mix(k, 5) % n) ELSE Pick(PosSeq(n), Mix(k, 5))) ELSE 0
+           IN FoldH(f, t, a, s, g, p) : j \in 1..Extra }
 FoldOffered(h) ==
     /\ (h.fn = "norm" => h.T \in FTypes)          \* norm of an integer tensor takes an integer square root (truncates): not a fold of the property
     /\ (h.arg \in {"view", "fview"} => Len(h.shape) = 1)     \* views: contiguous window of a longer rank-1 parent
-    /\ (h.sign = "psq" => h.fn = "norm" /\ h.arg \in {"tensor", "expr"})
-FoldKeep(h) ==
-    LET n == NEl(h.shape)
-        fi == Idx(FnSeq, h.fn)
-        k == HKey(h.fn, h.T, h.arg, h.shape, h.sign, h.pos, 1)
-        k0 == HKey0(h.fn, h.T, h.arg, h.shape, h.sign)
-        onepos == h.pos = 0 \/ h.pos = Pick(PosSeq(n), k0)
-    IN \/ (h.fn \in {"min", "max"} /\ h.arg = "tensor" /\ h.sign \in {"pos", "neg"})              \* identity-element strata: every (T, n)
-       \/ (h.sign = Pick(FoldSigns, n + TI(h.T) + fi) /\ h.arg = Pick(FoldArgs, n + fi) /\ onepos)    \* rotation: every (fn, T, n)
-       \/ (h.fn \in {"min", "max"} /\ h.arg = "tensor" /\ h.sign = (IF h.fn = "min" THEN "xmin" ELSE "xmax") /\ h.T \in {"f64", "i32"}
-             /\ (AllPos \/ k % 2 = 0))
-       \/ (h.sign = "psq" /\ h.T = "f64")
-       \/ (k % Rate = 0 /\ (AllPos => h.pos = 0 \/ h.pos \in PosSet(n) \/ k % 5 = 0))
+    /\ (h.arg = "member" => h.fn \in {"sum", "product"})
+FoldKeep(h) == TRUE
 FoldBuild(h) ==
     LET n == NEl(h.shape)
         key == HKey(h.fn, h.T, h.arg, h.shape, h.sign, h.pos, 2)
@@ -117,25 +129,25 @@ FoldCases(u) == { x \in { FoldBuild(h) : h \in {h \in FoldHeaders(0) : FoldOffer
 (* family pred:  all_of any_of none_of  on  x op scalar | (a+b) op scalar | x op y | Tensor<bool> *)
 PredSigns == <<"alltrue", "allfalse", "onetrue", "onefalse", "mixed">>
 PredArgs == <<"cmp_s", "cmp_es", "cmp_tt", "bool">>
-PredPos(g, n) == IF g \in {"onetrue", "onefalse"} THEN (IF AllPos THEN 1..n ELSE PosSet(n)) ELSE {0}
 \* Tensor<bool,...> argument: T = "b", the boolean input is  A # 0
-PredCombos == {<<"b", "bool", "ne">>} \cup ({"f64", "f32", "i32", "i64"} \X {"cmp_s", "cmp_es", "cmp_tt"} \X {"gt", "lt", "ge", "le", "eq", "ne"})
+PredFnSeq == <<"all_of", "any_of", "none_of">>
+PredShapeSeq == [i \in 1..NMax |-> <<i>>] \o <<<<3, 4>>, <<2, 3, 5>>>>
+PredH(f, t, a, s, g, p, o) == [fn |-> f, T |-> (IF a = "bool" THEN "b" ELSE t), arg |-> a, shape |-> s, sign |-> g, pos |-> p, op |-> (IF a = "bool" THEN "ne" ELSE o)]
+PredP(g, n, k) == IF g \in {"onetrue", "onefalse"} THEN (IF AllPos THEN 1 + (k % n) ELSE Pick(PosSeq(n), k)) ELSE 0
 PredHeaders(u) ==
-    UNION { UNION { { [fn |-> f, T |-> tao[1], arg |-> tao[2], shape |-> s, sign |-> g, pos |-> p, op |-> tao[3]] :
-                        f \in {"all_of", "any_of", "none_of"}, tao \in PredCombos, p \in PredPos(g, NEl(s)) }
-                    : g \in {"alltrue", "allfalse", "onetrue", "onefalse", "mixed"} } : s \in Shapes1 \cup {<<3, 4>>, <<2, 3, 5>>} }
+    \* rotation: every (fn, shape)
+    { LET n == NEl(s)   fi == Idx(FnSeq, f)   g == Pick(PredSigns, n + fi)   a == Pick(PredArgs, n + fi)
+      IN PredH(f, Pick(TypeSeq, n + 2 * fi), a, s, g, PredP(g, n, HKey0(f, "f64", a, s, g)), Pick(OpSeq, n + fi)) :
+         f \in {"all_of", "any_of", "none_of"}, s \in Shapes1 \cup {<<3, 4>>, <<2, 3, 5>>} }
+    \* the two constant inputs (where none_of / all_of / any_of differ most): every (fn, shape)
+    \cup { PredH(f, Pick(TypeSeq, NEl(s)), "cmp_s", s, g, 0, "gt") :
+              f \in {"all_of", "any_of", "none_of"}, s \in Shapes1 \cup {<<3, 4>>, <<2, 3, 5>>}, g \in {"alltrue", "allfalse"} }
+    \* hashed headers over the whole product
+    \cup { LET k == Mix((Seed % P) + 2000, j)
+               f == Pick(PredFnSeq, k)   a == Pick(PredArgs, Mix(k, 2))   s == Pick(PredShapeSeq, Mix(k, 3))   g == Pick(PredSigns, Mix(k, 4))
+           IN PredH(f, Pick(TypeSeq, Mix(k, 1)), a, s, g, PredP(g, NEl(s), Mix(k, 5)), Pick(OpSeq, Mix(k, 6))) : j \in 1..PredExtra }
 PredOffered(h) == TRUE
-PredKeep(h) ==
-    LET n == NEl(h.shape)
-        fi == Idx(FnSeq, h.fn)
-        k == HKey(h.fn, h.T, h.arg, h.shape, h.sign, h.pos, Idx(OpSeq, h.op))
-        k0 == HKey0(h.fn, h.T, h.arg, h.shape, h.sign)
-        onepos == h.pos = 0 \/ h.pos = Pick(PosSeq(n), k0)
-        rotarg == Pick(PredArgs, n + fi)
-    IN \/ (h.sign = Pick(PredSigns, n + fi) /\ h.arg = rotarg /\ onepos
-             /\ (rotarg = "bool" \/ (h.T = Pick(TypeSeq, n + 2 * fi) /\ h.op = Pick(OpSeq, n + fi))))          \* rotation: every (fn, n)
-       \/ (h.sign \in {"alltrue", "allfalse"} /\ h.arg = "cmp_s" /\ h.op = "gt" /\ h.T = Pick(TypeSeq, n))   \* the two constant inputs: every (fn, n)
-       \/ k % (6 * Rate) = 0
+PredKeep(h) == TRUE
 PredBuild(h) ==
     LET n == NEl(h.shape)
         key == HKey(h.fn, h.T, h.arg, h.shape, h.sign, h.pos, 3 + Idx(OpSeq, h.op))
@@ -172,17 +184,17 @@ BinOperands(arg, X, Y, key, n) ==      \* -> <<A, B, C, D>>: first operand = A (
         e2 == arg \in {"te", "ee"}
     IN << IF e1 THEN [i \in 1..n |-> X[i] - Bv[i]] ELSE X, IF e1 THEN Bv ELSE <<>>,
           IF e2 THEN [i \in 1..n |-> Y[i] - Dv[i]] ELSE Y, IF e2 THEN Dv ELSE <<>> >>
+IseqH(t, a, s, g, p) == [fn |-> "isequal", T |-> t, arg |-> a, shape |-> s, sign |-> g, pos |-> p]
 IseqHeaders(u) ==
-    UNION { { [fn |-> "isequal", T |-> t, arg |-> a, shape |-> s, sign |-> g, pos |-> p] :
-                 t \in Types, a \in {"tt", "te", "et", "ee"}, g \in {"equal", "diff"}, p \in PosSet(NEl(s)) \cup {0} }
-            : s \in Shapes1 \cup {<<3, 4>>, <<2, 3, 5>>} }
-IseqKeep(h) ==
-    LET n == NEl(h.shape)
-        k == HKey(h.fn, h.T, h.arg, h.shape, h.sign, h.pos, 4)
-        k0 == HKey0(h.fn, h.T, h.arg, h.shape, h.sign)
-    IN /\ (h.sign = "diff") = (h.pos > 0)
-       /\ \/ (h.arg = Pick(BinArgs, n) /\ h.T = Pick(TypeSeq, n \div 2) /\ (h.pos = 0 \/ h.pos = Pick(PosSeq(n), k0)))   \* rotation: every n, both truth values
-          \/ (k % (4 * Rate) = 0 /\ (h.pos = 0 \/ h.pos = Pick(PosSeq(n), k0)))
+    \* rotation: every shape with both truth values
+    { LET n == NEl(s)   a == Pick(BinArgs, n)   t == Pick(TypeSeq, n \div 2)
+      IN IseqH(t, a, s, g, IF g = "diff" THEN Pick(PosSeq(n), HKey0("isequal", t, a, s, g)) ELSE 0) :
+         s \in Shapes1 \cup {<<3, 4>>, <<2, 3, 5>>}, g \in {"equal", "diff"} }
+    \cup { LET k == Mix((Seed % P) + 3000, j)
+               s == Pick(PredShapeSeq, Mix(k, 3))   g == Pick(<<"equal", "diff", "diff">>, Mix(k, 4))   n == NEl(s)
+           IN IseqH(Pick(TypeSeq, Mix(k, 1)), Pick(BinArgs, Mix(k, 2)), s, g,
+                    IF g = "diff" THEN (IF AllPos THEN 1 + (Mix(k, 5) % n) ELSE Pick(PosSeq(n), Mix(k, 5))) ELSE 0) : j \in 1..IseqExtra }
+IseqKeep(h) == TRUE
 IseqBuild(h) ==
     LET n == NEl(h.shape)
         key == HKey(h.fn, h.T, h.arg, h.shape, h.sign, h.pos, 5)
@@ -253,7 +265,7 @@ SymKeep(h) ==
     IN /\ (h.sign = "nonsq") = (h.shape[1] # h.shape[2])
        /\ (h.sign = "asym") = (h.pos > 0)
        /\ (h.pos = 0 \/ h.pos = Pick(up, k0) \/ (AllPos /\ k % 3 = 0))
-       /\ \/ (h.T = Pick(TypeSeq, n + Idx(SignSeq, h.sign)) /\ h.arg = Pick(<<"tensor", "expr">>, n))
+       /\ \/ h.arg = Pick(<<"tensor", "expr">>, n + TI(h.T))            \* every (T, shape, truth value)
           \/ k % Rate = 0
 SymBuild(h) ==
     LET m == h.shape[1]   n == h.shape[2]
@@ -279,7 +291,7 @@ OrthKeep(h) ==
         n == h.shape[1]
     IN /\ (h.sign = "near") = (h.pos > 0)
        /\ (h.pos = 0 \/ h.pos = (k0 % (n * n)) + 1 \/ (AllPos /\ k % 7 = 0))
-       /\ \/ (h.T = Pick(<<"f64", "f32">>, n + Idx(SignSeq, h.sign)) /\ h.arg = Pick(<<"tensor", "expr">>, n + Idx(SignSeq, h.sign) \div 2))
+       /\ \/ (h.T \in FTypes /\ h.arg = Pick(<<"tensor", "expr">>, n + TI(h.T) + Idx(SignSeq, h.sign)))      \* every (float T, n, pattern)
           \/ (h.T \in {"i32", "i64"} /\ h.arg = "tensor" /\ n \in {2, 5} /\ h.sign \in {"sperm", "near"})
           \/ k % (2 * Rate) = 0
 OrthBuild(h) ==
